@@ -11,13 +11,13 @@ META = {
     "level": "exploration",
     "technique": "runtime monitoring, exhaustive over small domains: every pair/triple of channel identifiers, every ordered pair of qubit and edge identifiers, seeded sequences for de-duplication, each compared with the relation stated in the property",
     "rule": ("EXHAUSTIVE: channel identifiers over 4 qubit ids x 4 channels (all 256 ordered pairs, all 4,096 triples), all ordered pairs of the 17 Surface-17 "
-             "qubit identifiers (289) and of edges between two different qubits in both orientations, list-membership semantics; plus 4k/40k seeded "
+             "qubit identifiers and 13 look-alike names (900) and of edges between two different qubits in both orientations, list-membership semantics; plus 4k/40k seeded "
              "sequences (length <= 30, alphabet <= 6, mixed hashable types) for unique_in_order; a case is one tuple of identifiers; non-trivial = involves the ALL "
              "channel, a reversed edge, or a sequence with a repeated element"),
     "assumptions": ["the relations are the ones in the statement; Python's dict.fromkeys defines 'first occurrence of every element'"],
     "exhaustive": {"quick": True, "thorough": True},
     "floors": {
-        "quick": {"channel_pairs": 256, "channel_triples": 4096, "qubit_pairs": 289, "edge_pairs": 20000, "sequences": 3900},
+        "quick": {"channel_pairs": 256, "channel_triples": 4096, "qubit_pairs": 900, "qubit_lookalike_pairs": 10, "edge_pairs": 20000, "sequences": 3900},
         "thorough": {"channel_pairs": 256, "channel_triples": 4096, "edge_pairs": 60000, "sequences": 39000},
     },
 }
@@ -70,10 +70,14 @@ def run_channels(acc: Acc):
 def run_qubits(acc: Acc):
     from qce_circuit.connectivity.intrf_channel_identifier import QubitIDObj
     from qv.props import c16
-    names = sorted(c16.SPEC_LEVELS)
+    # the 17 device names plus look-alikes: names differing only in letter case, padding, leading zeros, surrounding blanks,
+    # unicode look-alike, empty name ("equal exactly when their names are" is about the names as given)
+    names = sorted(c16.SPEC_LEVELS) + ["d1", "x1", "z4", "D01", "D1 ", " D1", "D10", "D", "", "Q0", "q0", "\u0044\u0031\u200b", "D1\n"]
     for x, y in itertools.product(names, names):
         a, b = QubitIDObj(x), QubitIDObj(y)
         acc.count("qubit_pairs")
+        if x != y and x.strip().lower() == y.strip().lower():
+            acc.count("qubit_lookalike_pairs")
         case = {"a": x, "b": y}
         acc.case("q" + x + y, x == y, sample=case if x == y else None)
         if (a == b) != (x == y):
